@@ -163,6 +163,22 @@ ROUND4: dict[str, str] = {
 for _pid, _text in ROUND4.items():
     META[_pid]["level"] += " " + _text
 
+# Fourth round of seeded changes (DESIGN.md 9.14)
+ROUND5: dict[str, str] = {
+    "C02": "Fourth round: no truth test of an optional quantum number (l/s magnitude and projection; L = 0 is a value) anywhere in ampform.helicity (R-FALSYZERO, shared with C12 and C13).",
+    "C04": "Fourth round: an option of formulate_isobar_wigner_d that a caller binds to something else than its default is any value - the (-phi, theta, 0) convention is judged on every path.",
+    "C06": "Fourth round: a mutable literal default of an attrs class is shared state (a dataclass refuses it, attrs does not).",
+    "C09": "Fourth round: in-place operations of SymPy matrices (row_op, col_op, row_swap ...) count as writes into a memoised matrix.",
+    "C12": "Fourth round: a per-instance memo `if K not in self.M: self.M[K] = V` has every public, re-assignable attribute that V reads in its key (R-MEMOKEY); R-FALSYZERO.",
+    "C13": "Fourth round: R-FALSYZERO (see C02).",
+    "C15": "Fourth round: every field of HelicityModel that takes part in the generated __eq__ is of a type whose instances compare by value (R-FIELDEQ).",
+    "C16": "Fourth round: the taint of a helper call is the taint of what the helper returns (a helper that returns str / srepr / hash of the key returns a digest, not the key); nothing on the cache path raises inside a handler of a file-system error or under a test that observes the file system (R-NORAISE).",
+    "C17": "Fourth round: in a helper loop over the items of the source mapping, a stored value read from the source under another key than the item's own is reported (values travel with their symbols).",
+    "C20": "Fourth round: threshold conjuncts of the indicator are read - a wrong mass pairing is a violation, a right one leaves the indicator undecided (crossed-channel regions are outside the sign table).",
+}
+for _pid, _text in ROUND5.items():
+    META[_pid]["level"] += " " + _text
+
 TECHNIQUE_SUFFIX = {
     "C02": "; abstract evaluation of the fold chain into structural terms (sa/symex.py)",
     "C04": "; abstract evaluation of the rotation chain into structural terms",
